@@ -456,6 +456,10 @@ class Normaliser:
                 return True
             if isinstance(n, ast.If) and isinstance(n.test, ast.Constant):
                 return True
+            if isinstance(n, ast.Call) and any(k.arg is None and isinstance(k.value, (ast.Dict, ast.Name))
+                                               and (isinstance(k.value, ast.Dict) or k.value.id.isupper())
+                                               for k in n.keywords):
+                return True
             if isinstance(n, ast.For) and isinstance(n.iter, ast.GeneratorExp):
                 return True
             if isinstance(n, ast.comprehension):
@@ -510,6 +514,7 @@ class Normaliser:
     def _expand_fn(self, fn: ast.AST, rel, mod, cls, stack, depth) -> bool:
         changed = False
         self._cur_fn = fn
+        self._cur_mod = mod
         for _ in range(12):
             c1 = self._match_to_if(fn)
             c2 = self._ifexp_to_if(fn)
@@ -527,10 +532,12 @@ class Normaliser:
             c5 = self._forward_adjacent_copies(fn) or c5
             c5 = self._propagate_field_copies(fn) or c5
             c5 = self._sink_table_loops(fn, mod, cls) or c5
+            c5 = self._sink_rest_after_lookup(fn, mod, cls) or c5
             for _k in range(8):
                 if not self._split_on_table_lookup(fn, mod, cls):
                     break
                 c5 = True
+            c5 = self._propagate_constant_locals(fn) or c5
             c5 = self._split_tuple_assign(fn) or c5
             changed = changed or c1 or c2 or c3 or c4 or c5
             if not (c1 or c2 or c3 or c4 or c5):
@@ -1344,6 +1351,68 @@ class Normaliser:
             return None
         return lit, owner
 
+    def _is_table_lookup(self, st: ast.stmt, mod, cls) -> bool:
+        if not (isinstance(st, (ast.Assign, ast.AnnAssign)) and getattr(st, 'value', None) is not None):
+            return False
+        v = st.value
+        tab = None
+        if isinstance(v, ast.Subscript) and not isinstance(v.slice, ast.Slice):
+            tab = v.value
+        elif isinstance(v, ast.Call) and isinstance(v.func, ast.Attribute) and v.func.attr == 'get' \
+                and 1 <= len(v.args) <= 2 and not v.keywords:
+            tab = v.func.value
+        return tab is not None and self._lookup_table(tab, mod, cls) is not None
+
+    def _sink_rest_after_lookup(self, fn: ast.AST, mod, cls) -> bool:
+        """x = None; if c: x = TABLE.get(k)   <rest that uses x>: the rest of the block moves into both
+        branches of the `if` (so that the lookup can be split into one branch per table value with the
+        uses of x behind it)"""
+        for blk in list(self._blocks(fn)):
+            for i, st in enumerate(blk):
+                if not (isinstance(st, ast.If) and st.body and self._is_table_lookup(st.body[-1], mod, cls)):
+                    continue
+                rest = blk[i + 1:]
+                if not rest or sum(1 for t_ in rest for _ in ast.walk(t_) if isinstance(_, ast.stmt)) > 30:
+                    continue
+                tg = st.body[-1].targets[0] if isinstance(st.body[-1], ast.Assign) else st.body[-1].target
+                names = {x.id for x in ast.walk(tg) if isinstance(x, ast.Name)}
+                if not any(isinstance(x, ast.Name) and x.id in names and isinstance(x.ctx, ast.Load)
+                           for t_ in rest for x in ast.walk(t_)):
+                    continue
+                st.body = list(st.body) + rest
+                st.orelse = list(st.orelse) + clone(rest)
+                del blk[i + 1:]
+                return True
+        return False
+
+    def _propagate_constant_locals(self, fn: ast.AST) -> bool:
+        """x = None (or another constant) followed, in the same block and before x is bound again, by
+        `if x is None:` / `if x:` tests: the tests read the constant"""
+        changed = False
+        for blk in list(self._blocks(fn)):
+            for i, st in enumerate(blk):
+                tg0 = st.targets[0] if isinstance(st, ast.Assign) and len(st.targets) == 1 else (
+                    st.target if isinstance(st, ast.AnnAssign) else None)
+                if not (isinstance(tg0, ast.Name) and isinstance(getattr(st, 'value', None), ast.Constant)
+                        and (st.value.value is None or isinstance(st.value.value, (bool, str, int)))):
+                    continue
+                x = tg0.id
+                for later in blk[i + 1:]:
+                    if isinstance(later, ast.If):
+                        hit = [n for n in ast.walk(later.test) if isinstance(n, ast.Name) and n.id == x]
+                        if hit and not any(isinstance(n, (ast.NamedExpr, ast.Lambda)) for n in ast.walk(later.test)):
+                            class R(ast.NodeTransformer):
+                                def visit_Name(self, node):
+                                    if node.id == x and isinstance(node.ctx, ast.Load):
+                                        return ast.copy_location(ast.Constant(value=st.value.value), node)
+                                    return node
+                            later.test = R().visit(later.test)
+                            changed = True
+                    if any(isinstance(n, ast.Name) and n.id == x and isinstance(n.ctx, (ast.Store, ast.Del))
+                           for n in ast.walk(later)) or isinstance(later, (ast.While, ast.For, ast.Try)):
+                        break
+        return changed
+
     def _split_on_table_lookup(self, fn: ast.AST, mod, cls) -> bool:
         """`x = TABLE[key]` / `a, b = TABLE[key]` / `x = TABLE.get(key[, default])` over a constant dict,
         followed by code that uses x: one branch per distinct table value (`if key == K1: <rest with V1>
@@ -1825,11 +1894,46 @@ class Normaliser:
                 changed = True
         return changed
 
+    def _module_dict_const(self, name: str, mod):
+        """NAME = {'k': const, ..} or NAME = dict(k=const, ..), bound once at module level and never changed:
+        a fresh Dict display, else None"""
+        if mod is None:
+            return None
+        defs = [st.value for st in getattr(mod, 'body', [])
+                if (isinstance(st, ast.Assign) and len(st.targets) == 1 and isinstance(st.targets[0], ast.Name)
+                    and st.targets[0].id == name)
+                or (isinstance(st, ast.AnnAssign) and isinstance(st.target, ast.Name) and st.target.id == name
+                    and st.value is not None)]
+        if len(defs) != 1:
+            return None
+        v = defs[0]
+        if isinstance(v, ast.Call) and isinstance(v.func, ast.Name) and v.func.id == 'dict' and not v.args \
+                and v.keywords and all(k.arg is not None and isinstance(k.value, ast.Constant) for k in v.keywords):
+            v = ast.Dict(keys=[ast.Constant(value=k.arg) for k in v.keywords], values=[k.value for k in v.keywords])
+        if not (isinstance(v, ast.Dict) and v.keys and all(isinstance(k, ast.Constant) and isinstance(k.value, str)
+                                                           for k in v.keys)
+                and all(isinstance(x, ast.Constant) for x in v.values)):
+            return None
+        for n in ast.walk(mod):
+            if isinstance(n, ast.Subscript) and isinstance(n.value, ast.Name) and n.value.id == name \
+                    and isinstance(n.ctx, (ast.Store, ast.Del)):
+                return None
+            if isinstance(n, ast.Call) and isinstance(n.func, ast.Attribute) and isinstance(n.func.value, ast.Name) \
+                    and n.func.value.id == name and n.func.attr in ('update', 'pop', 'popitem', 'clear', 'setdefault'):
+                return None
+        return clone(v)
+
     def _format_to_fstring(self, fn: ast.AST) -> bool:
         """'{0}-{1}'.format(a, b), '{}-{}'.format(a, b), '%s-%s' % (a, b) with a constant template and
         plain fields: the equivalent f-string (one representation for text-building rules)"""
         import re as _re
         changed = False
+        outer = self
+        mod_ = fn
+        while getattr(mod_, '_parent', None) is not None:
+            mod_ = mod_._parent
+        if not isinstance(mod_, ast.Module):
+            mod_ = getattr(self, '_cur_mod', None)
 
         class T(ast.NodeTransformer):
             def visit_JoinedStr(inner, node: ast.JoinedStr):
@@ -1864,6 +1968,12 @@ class Normaliser:
             def visit_Call(inner, node: ast.Call):
                 nonlocal changed
                 inner.generic_visit(node)
+                # f(a, **MIDNIGHT) with MIDNIGHT = dict(hour=0, ..) / {'hour': 0, ..} bound once at module level
+                for k in node.keywords:
+                    if k.arg is None and isinstance(k.value, ast.Name) and k.value.id.isupper():
+                        lit = outer._module_dict_const(k.value.id, mod_)
+                        if lit is not None:
+                            k.value = lit
                 # f(a, **{'day': 1}) is f(a, day=1)
                 if any(k.arg is None and isinstance(k.value, ast.Dict) and all(
                         isinstance(kk, ast.Constant) and isinstance(kk.value, str) and kk.value.isidentifier()
